@@ -854,6 +854,9 @@ def _one_case(ctx, spec, i, cfg, tmp):
             import numpy as np
             import torch
 
+            def _same_bits(a, b):  # a degenerate short fit may hold NaN parameters: NaN == NaN here (both loads read the same file entry)
+                return a.shape == b.shape and a.dtype == b.dtype and bool(((a == b) | (torch.isnan(a.double()) & torch.isnan(b.double()))).all())
+
             Js = _copy.deepcopy(J)
             mm = np.asarray(Js["parameters"]["mixing_matrix"], dtype=float)
             Js["parameters"]["mixing_matrix"] = (np.round(mm, 1) + 0.37).tolist()
@@ -869,12 +872,13 @@ def _one_case(ctx, spec, i, cfg, tmp):
                 ms = None
             if ms is not None:
                 for pn_, v_ in m2.parameters.items():
-                    if pn_ in ms.parameters and not torch.equal(torch.as_tensor(ms.parameters[pn_]), torch.as_tensor(v_)):
-                        viol("load/stale-mixing-matrix-entry-changes-the-model", f"parameter '{pn_}' differs between the loads of the file with and without a stale mixing_matrix entry")
+                    if pn_ in ms.parameters and not _same_bits(torch.as_tensor(ms.parameters[pn_]), torch.as_tensor(v_)):
+                        viol("load/stale-mixing-matrix-entry-changes-the-model", f"parameter '{pn_}' differs between the loads of the file with and without a stale mixing_matrix entry "
+                             f"(with: {torch.as_tensor(ms.parameters[pn_]).flatten()[:6].tolist()}, without: {torch.as_tensor(v_).flatten()[:6].tolist()})")
                         break
                 else:
                     a_, b_ = ms.state["mixing_matrix"], m2.state["mixing_matrix"]
-                    if not torch.allclose(a_.double(), b_.double(), rtol=1e-6, atol=1e-7):
+                    if not torch.allclose(a_.double(), b_.double(), rtol=1e-6, atol=1e-7, equal_nan=True):
                         viol("load/stale-mixing-matrix-entry-changes-the-model", "the mixing matrix of the loaded model follows the stale file entry, not the parameters")
         except Exception as e:
             ctx.note(f"stale_mixing_matrix_block_skipped_{type(e).__name__}", str(e)[:160])
